@@ -156,6 +156,8 @@ type replyConn struct {
 	replies [][]byte
 	n       int
 	Reqs    [][]byte
+	// ReplyFunc, if set, computes the reply to the n-th request instead of replies[n].
+	ReplyFunc func(n int, req []byte) []byte
 }
 
 func newReplyConn(replies ...[]byte) *replyConn {
@@ -171,7 +173,9 @@ func newReplyConn(replies ...[]byte) *replyConn {
 			req := rc.buf[:i+4]
 			rc.buf = rc.buf[i+4:]
 			rc.Reqs = append(rc.Reqs, append([]byte(nil), req...))
-			if rc.n < len(rc.replies) {
+			if rc.ReplyFunc != nil {
+				c.AppendInputLocked(rc.ReplyFunc(rc.n, req))
+			} else if rc.n < len(rc.replies) {
 				rep := rc.replies[rc.n]
 				if bytes.Contains(rep, []byte("$ACCEPT")) {
 					rep = bytes.ReplaceAll(rep, []byte("$ACCEPT"), []byte(wsref.AcceptKey(headerValue(req, "Sec-WebSocket-Key"))))
